@@ -571,3 +571,76 @@ def arity_obligations(idx, rep, rules, rule_name="part-coverage"):
             n += 1
             rep.decide(ok_, rule_name, rule.role, text_, detail="" if ok_ else "fixed-arity", locs=[idx.loc(rule.func.module, node_)])
     return n
+
+
+def option_passthrough(idx, rep, fi, options, rule_name="option-passthrough", report=True):
+    """A routine that takes a contract option (tolerance, iteration cap, probe distribution, key) and calls another library routine
+    with a parameter of the same name must hand its own value on: positionally, by keyword, or wholesale (`**self.__dict__`).  A call
+    that leaves the callee's parameter unbound runs the callee with its default -- what the caller asked for is silently dropped.
+    Own options of a method of an algorithm (dataclass) class include the class fields (`self.o`).
+    Returns [(ok, construct, text, loc)]; ok None = bound from something this rule does not interpret."""
+    own = {p for p in fi.params if p in options}
+    kw = {a.arg for a in fi.node.args.kwonlyargs}
+    own |= kw & set(options)
+    fields = set()
+    self_name = None
+    if fi.cls is not None and fi.params:
+        fields = set(_fields_of(idx, fi.cls.name)) & set(options)
+        self_name = fi.params[0]
+    out = []
+    if not own and not fields:
+        return out
+    for c in df.calls(fi.node):
+        r = idx.resolve_expr(fi.module, c.func, fi) if isinstance(c.func, (ast.Name, ast.Attribute)) else None
+        if r is None or r.kind != "funcs":
+            continue
+        callee = r.val[-1]
+        if callee.node is fi.node or not callee.module.name.startswith("cola"):
+            continue
+        a = callee.node.args
+        cparams = [x.arg for x in a.posonlyargs + a.args] + [x.arg for x in a.kwonlyargs]
+        if a.kwarg is not None:
+            continue  # **kwargs: what the callee does with them is not visible here
+        bound = df.bind_call(c, callee.params)
+        if "*" in bound:
+            continue
+        for o in sorted((own | fields) & set(cparams)):
+            construct = f"{fi.short}->{callee.short}:{o}"
+            loc = idx.loc(fi.module, c)
+            if o in bound:
+                e = bound[o]
+                e2 = df.resolve_value(fi.node, e) if isinstance(e, ast.Name) and e.id != o else e
+                names = {n.id for n in ast.walk(e2) if isinstance(n, ast.Name)} | {n.id for n in ast.walk(e) if isinstance(n, ast.Name)}
+                attrs = {n.attr for n in ast.walk(e2) if isinstance(n, ast.Attribute) and isinstance(n.value, ast.Name) and n.value.id == self_name}
+                if o in names or o in attrs:
+                    out.append((True, construct, f"`{o}` is handed on as `{ast.unparse(e)[:40]}`", loc))
+                else:
+                    out.append((None, construct, f"`{o}` of {callee.short} is bound to `{ast.unparse(e)[:40]}`, which does not read the caller's `{o}`", loc))
+            elif "**" in bound:
+                ok = None
+                for s in bound["**"]:
+                    s2 = df.resolve_value(fi.node, s) if isinstance(s, ast.Name) else s
+                    if isinstance(s2, ast.Attribute) and s2.attr == "__dict__" and isinstance(s2.value, ast.Name) and (s2.value.id == self_name and o in fields):
+                        ok = True
+                    if isinstance(s2, ast.Call) and isinstance(s2.func, ast.Name) and s2.func.id == "vars" and s2.args and isinstance(s2.args[0], ast.Name) and s2.args[0].id == self_name and o in fields:
+                        ok = True
+                out.append((ok, construct, f"`{o}` arrives through `**{ast.unparse(bound['**'][0])[:30]}`" if ok else f"`{o}` may arrive through a ** mapping this rule does not interpret", loc))
+            else:
+                out.append((False, construct, f"{fi.short} takes `{o}` but calls {callee.short} without it: {callee.short} runs with its default `{o}`, whatever the caller asked for", loc))
+    if report:
+        for ok, construct, text, loc in out:
+            rep.decide(ok, rule_name, construct, text, detail="" if ok is not False else "dropped", locs=[loc])
+    return out
+
+
+def passthrough_in(idx, rep, module_suffixes, class_names, options, floor, rule_name="option-passthrough"):
+    """option_passthrough over every function of the named modules and the `__call__` of the named algorithm classes"""
+    n = 0
+    for fi in idx.funcs.values():
+        in_mod = any(fi.module.name.endswith(s) for s in module_suffixes)
+        in_cls = fi.cls is not None and fi.cls.name in class_names and fi.name == "__call__"
+        if not (in_mod or in_cls):
+            continue
+        n += len(option_passthrough(idx, rep, fi, options, rule_name))
+    rep.floor(rule_name, floor)
+    return n
